@@ -329,6 +329,14 @@ fn c11_leapers(ctx: &Ctx, seed: u64) {
 
 pub fn c11(o: &Opts) -> i32 {
     let ctx = default_ctx("C11", o, 60.0, 60.0);
+    // result of the AddressSanitizer leg, run by ./check before the draws (thorough tier)
+    if let Ok(n) = std::env::var("VERIF_ASAN_REPORTS") {
+        let n: u64 = n.parse().unwrap_or(0);
+        let lookups: u64 = std::env::var("VERIF_ASAN_LOOKUPS").ok().and_then(|s| s.parse().ok()).unwrap_or(0);
+        ctx.count("asan_lookups_run", lookups); ctx.count("asan_reports", n);
+        ctx.set_extra("address_sanitizer", json!({"lookups": lookups, "reports": n, "log": std::env::var("VERIF_ASAN_LOG").unwrap_or_default()}));
+        if n > 0 { ctx.violation("c11:address-sanitizer-report", &format!("AddressSanitizer reported {} error(s) during table construction and {} lookups (log: {})", n, lookups, std::env::var("VERIF_ASAN_LOG").unwrap_or_default()), json!({"log": std::env::var("VERIF_ASAN_LOG").unwrap_or_default()})); }
+    }
     let k = read_constants();
     ctx.set_extra("draw_fingerprint", json!(format!("{:016x}", k.fingerprint())));
     let mut units: Vec<(u8, u8)> = vec![];
